@@ -367,6 +367,7 @@ class Program:
         Includes closure-creation edges and fn-item-as-value edges (conservative)."""
         if self._cg is None:
             cg = {}
+            validators = {x.id for x in self.bodies.values() if x.crate == 'autosar_data_specification' and re.search(r'regex::validate_regex_\d+$', x.short)}
             for b in self.bodies.values():
                 out = set()
                 for blk in b.blocks:
@@ -375,6 +376,10 @@ class Program:
                         c = callee_of(t)
                         if c:
                             out.add(c)
+                        elif not callee_generic(t) and b.crate == 'autosar_data':
+                            # a call through a function pointer: the only fn pointers of these crates are CharacterDataSpec::Pattern.check_fn,
+                            # whose targets are the validators of the specification crate (conservative: all of them)
+                            out.update(validators)
                         g = callee_generic(t)
                         if g and g != c and g in self.bodies:
                             out.add(g)
